@@ -458,6 +458,7 @@ package raft
 
 // STUB (outside area fsm): leader.go. The view handed to the replications must exist.
 //@ func (*leader).notifyFlr
+//@   trusted
 //@   requires l.Raft != nil && l.storage != nil && l.log != nil
 //@   requires [C09.notify-view-valid] l.log.gprev <= l.removeLTE && l.removeLTE <= l.lastLogIndex && l.lastLogIndex <= l.log.glast
 
